@@ -33,7 +33,7 @@ func runC06(r *Report, p *Program) {
 
 func c06R1(h H) {
 	r := h.r
-	r.Rule("R1", "SNI lookup as a decision table (E10, opaque labels): configGroup.getConfig, evaluated for every group of up to three configs over the keys {a.b.c, *.b.c, *.*.c, *.*.*, catch-all, *.c, b.c} and the SNI name A.B.C in another letter case, returns the config of the most specific matching key (exact, wildcard ladder with all labels kept, catch-all) and an arbitrary one only when none matches; normalizedName lower-cases; GetConfigForClient returns getConfig(...).tlsConfig", 3)
+	r.Rule("R1", "SNI lookup as a decision table (E10, opaque labels): configGroup.getConfig, evaluated for every group of up to three configs (thorough tier: every group) over the keys {a.b.c, *.b.c, *.*.c, *.*.*, catch-all, *.c, b.c} and the SNI name A.B.C in another letter case, returns the config of the most specific matching key (exact, wildcard ladder with all labels kept, catch-all) and an arbitrary one only when none matches; normalizedName lower-cases; GetConfigForClient returns getConfig(...).tlsConfig", 3)
 	// the lookup as a decision table (E10): config groups over the key universe {a.b.c, *.b.c, *.*.c, *.*.*, "" (catch-all),
 	// *.c, b.c}, every subset of up to three keys, SNI name " A.B.C " in another letter case
 	if fn := h.fn("R1", tlsPkg, "configGroup.getConfig"); fn != nil {
@@ -66,6 +66,19 @@ func c06R1(h H) {
 				for c := b + 1; c < len(keys); c++ {
 					subsets = append(subsets, []int{a, b, c})
 				}
+			}
+		}
+		if theTier == "thorough" {
+			// every group over the key universe
+			subsets = nil
+			for m := 0; m < 1<<len(keys); m++ {
+				var set []int
+				for a := range keys {
+					if m&(1<<a) != 0 {
+						set = append(set, a)
+					}
+				}
+				subsets = append(subsets, set)
 			}
 		}
 		bad, nrun := "", 0
